@@ -96,6 +96,13 @@ Definition treg_apply (max : nat) (o : rop) (m : list (N * N)) : rres * list (N 
   | RAuth id _ => if has m id then (ROk, m) else (RRefused, m)      (* the key set is untouched either way *)
   end.
 
+(* NOT the code: "a registration whose TunnelID is already registered is a replacement and skips the capacity check".
+   The cap is on connMap, keyed by ConnID, so a known TunnelID on a NEW ConnID still adds an entry (refuted). *)
+Definition treg_tid_skip_apply (max : nat) (tid_known : bool) (id t : N) (m : list (N * N)) : rres * list (N * N) :=
+  if N.eqb id 0 then (RRefused, m)
+  else if negb (tid_known || has m id) && at_cap max (length m) then (RRefused, m)
+  else (ROk, (id, t) :: del m id).
+
 (* ClientRegistry.findOldestConnectionLocked: minimal CreatedAt (first minimal in list order; Go iterates a map,
    so with equal stamps the choice is unspecified — the harness stamps distinct times) *)
 Fixpoint oldest (m : list (N * N)) : option (N * N) :=
